@@ -319,6 +319,17 @@ func (c11) Execute(sc *engine.Scenario) *engine.Result {
 	if ended == "budget" {
 		res.Probe("ran_to_budget")
 	}
+	{
+		dg := engine.NewDigest()
+		rg := m.CPU.VerifGetRegs()
+		dg.Bytes([]byte{rg.A, rg.F, rg.B, rg.C, rg.D, rg.E, rg.H, rg.L})
+		dg.U16(rg.PC)
+		dg.U16(rg.SP)
+		dg.U64(m.N)
+		dg.Byte(m.Tim.ReadDIV())
+		dg.Byte(m.IRQ.ReadIF())
+		res.Digest = uint64(dg)
+	}
 	res.Sig(fmt.Sprintf("%s/type=%s/then=%s/%s", sc.Class, typ, then, ended))
 	if m.Spk != nil {
 		m.GB.Cleanup()
